@@ -182,6 +182,8 @@ pub struct Ctx {
     pub pivots: Vec<u32>,
     pub equations: Vec<u32>,
     pub preferred_pivots: Vec<u32>,
+    /// when set, only these atoms may be chosen as pivots (counter-strategy search)
+    pub pivot_filter: Option<Vec<u32>>,
     pub z3: Option<Z3>,
     pub obligations: Vec<Obligation>,
     pub failures: Vec<Failure>,
@@ -248,6 +250,7 @@ pub fn reset(cfg: RunCfg) {
             pivots: vec![],
             equations: vec![],
             preferred_pivots: vec![],
+            pivot_filter: None,
             z3,
             obligations: vec![],
             failures: vec![],
@@ -962,13 +965,78 @@ impl Ctx {
             self.stats.discharged = st_before.1;
             self.stats.by_rule = st_before.2;
         }
-        let det = format!(
+        let mut det = format!(
             "no fresh atom (id ≥ {fresh_from}) in which residual {} is affine with provably non-zero slope",
             self.describe(resid, 3)
         );
         self.record("GR", what, false, det.clone());
+        if depth == 0 {
+            // Counter-strategy search: values of the ADVERSARIAL atoms for which the residual
+            // vanishes for every value of the honest randomness drawn after them. Only adversarial
+            // atoms are pivots (an honest draw hitting the one accepted value is no counterexample).
+            // The model found describes the accepting run; it is attached to the failure so that the
+            // concrete replay on the real code decides. Path state is restored afterwards.
+            let pc_saved = self.pc.clone();
+            let snap = self.snapshot_worlds();
+            let lits: Vec<(u32, u32)> = self.pc.iter().filter_map(|l| if let Lit::Ne(x, y) = l { Some((*x, *y)) } else { None }).collect();
+            let mut drop: Vec<(u32, u32)> = vec![];
+            for (x, y) in lits {
+                if self.sub(x, y) == resid || self.sub(y, x) == resid {
+                    drop.push((x, y));
+                }
+            }
+            self.pc.retain(|l| !matches!(l, Lit::Ne(x, y) if drop.contains(&(*x, *y))));
+            if self.adversary_solves(resid, adv, 0) {
+                det.push_str(" — counter-strategy found: adversarial values for which the residual vanishes for every later honest draw (model attached)");
+                self.fail(what, det, false);
+                self.pc = pc_saved;
+                self.restore_worlds(snap);
+                return None;
+            }
+            self.pc = pc_saved;
+            self.restore_worlds(snap);
+        }
         self.fail(what, det, false);
         None
+    }
+
+    /// see `prove_gr_d`: make `r` vanish by choosing adversarial atoms only, identically in every
+    /// honest draw made after the adversarial atoms `r` depends on
+    fn adversary_solves(&mut self, r: u32, adv: &[u32], depth: u32) -> bool {
+        if !self.differs_in_some_world(r, 0) {
+            return true;
+        }
+        if depth > 3 {
+            return false;
+        }
+        let deep = self.deep_support(r);
+        let max_adv = deep.iter().copied().filter(|a| adv.contains(a)).max();
+        let mut sup: Vec<u32> = self.support(r).iter().copied().collect();
+        sup.sort_by(|a, b| b.cmp(a));
+        for v in sup {
+            let later_honest_draw = match self.nodes[v as usize].clone() {
+                Node::Var(vi) => self.var_names[vi as usize].starts_with("rng#") && !adv.contains(&v) && max_adv.map_or(true, |m| v > m),
+                _ => false,
+            };
+            if !later_honest_draw {
+                continue;
+            }
+            let two = self.cst(U::from_u64(2));
+            let r0 = self.subst(r, v, 0);
+            let r1 = self.subst(r, v, 1);
+            let r2 = self.subst(r, v, two);
+            let lhs = self.add(r2, r0);
+            let rhs = self.add(r1, r1);
+            if self.differs_in_some_world(lhs, rhs) {
+                return false; // not affine in a universally quantified draw: give up
+            }
+            let slope = self.sub(r1, r0);
+            return self.adversary_solves(slope, adv, depth + 1) && self.adversary_solves(r0, adv, depth + 1);
+        }
+        self.pivot_filter = Some(adv.to_vec());
+        let ok = self.try_add_equation(r);
+        self.pivot_filter = None;
+        ok
     }
 
     /// structural (non-solver) assertion on concrete control flow or data
